@@ -61,6 +61,8 @@ class Grid(object):
         self.name = name
         self.ncols = np.int64(ncols)
         self.nrows = np.int64(nrows)
+        # (the scalar type: a numpy.dtype instance can be given as well)
+        dtype = np.dtype(dtype).type
         self._dtype = dtype
         self._nodata = nodata
 
@@ -428,6 +430,7 @@ class Grid(object):
     @dtype.setter
     def dtype(self, value):
         """ Set data type """
+        value = np.dtype(value).type
         self._dtype = value
         self._data = self._data.astype(value)
 
